@@ -240,7 +240,8 @@ func vxH_C09_seeks() {
 	hasS := false
 	var S vxKey
 	var sb []byte
-	if vxTier() == 1 {
+	if vxTier() == 1 || shape == 0 {
+		// quick tier: a start bound on the single-segment path only
 		hasS, S, sb = vxOptKey(kl)
 	}
 	it, err := ss.StartIterator(sb, nil, IteratorOptions{})
